@@ -144,8 +144,8 @@ def gen_shape(rng, kind, lo, hi, allow_chain=True, cond_fam=None):
     return {"shape": k, "coef": [r4(a), r4(rng.uniform(-1.0, 1.0)), r4(rng.uniform(0.1, 2.0))]}
 
 
-def gen_dim(rng, i, cond, prev=()):
-    fam = rng.choice(FAM_NAMES)
+def gen_dim(rng, i, cond, prev=(), fam=None):
+    fam = fam or rng.choice(FAM_NAMES)
     _, plist = FAMS[fam]
     par = {}
     for (nm, kind, lo, hi) in plist:
@@ -172,7 +172,7 @@ def cond_structures(n_dim):
     return out
 
 
-def gen_spec(rng, structure=None, kind=None):
+def gen_spec(rng, structure=None, kind=None, fam0=None):
     if structure is None:
         n_dim = rng.choice([2, 2, 3, 3, 4])
         structure = rng.choice(cond_structures(n_dim))
@@ -180,7 +180,7 @@ def gen_spec(rng, structure=None, kind=None):
     alpha = rng.choice([math.exp(la), math.exp(la), float("%.3g" % math.exp(la)), 0.5, 1e-8, 0.01])
     dims = []
     for i, c in enumerate(structure):
-        dims.append(gen_dim(rng, i, c, dims))
+        dims.append(gen_dim(rng, i, c, dims, fam=fam0 if i == 0 else None))
     sp = {"kind": kind or rng.choice(["iform", "isorm"]), "alpha": float(alpha), "n_points": rng.randrange(3, 41), "dims": dims}
     if rng.random() < 0.2:
         sp["alpha_type"] = "np.float64"
@@ -603,6 +603,57 @@ def repeat_oracle(spec):
     return oracle(spec, model, c2)
 
 
+FIT_FAMS = ("weibull", "lognormal", "normal", "scipygamma")   # quick, reliable MLE fits
+
+
+def apply_history(spec, model, hist):
+    """change the parameters of ONE model object the ways a user does between two contours: assign new parameter values to
+    the unconditional distributions, give a dependence function new coefficients, or (re-)fit the first variable to data"""
+    op, f = hist["op"], hist.get("factor", 1.3)
+    if op == "fit":
+        d0 = model.distributions[0]
+        sample = np.asarray(d0.draw_sample(400, random_state=hist.get("seed", 1)), dtype=float)
+        d0.fit(sample * f)
+        return "distributions[0].fit(%g * 400 draws of itself)" % f
+    if op == "dep":
+        for i, d in enumerate(spec["dims"]):
+            if d["cond"] is not None:
+                for nm, fn in model.distributions[i].conditional_parameters.items():
+                    keys = list(fn.parameters)
+                    fn.parameters = dict(fn.parameters, **{keys[0]: fn.parameters[keys[0]] * f})
+                    return "distributions[%d].conditional_parameters[%r].parameters[%r] *= %g" % (i, nm, keys[0], f)
+    done = []
+    for i, d in enumerate(spec["dims"]):
+        if d["cond"] is None:
+            for (nm, kind, lo, hi) in FAMS[d["fam"]][1]:
+                old_v = getattr(model.distributions[i], nm)
+                setattr(model.distributions[i], nm, old_v * f if kind == "pos" else old_v + (f - 1.0))
+                done.append("distributions[%d].%s" % (i, nm))
+    return "assigned new values to " + ", ".join(done)
+
+
+def history_oracle(spec, hist):
+    """contour -> parameter change / fit on the SAME model object -> contour again; the second contour is judged against
+    the model's CURRENT cdfs (the property speaks about the model as it is when the contour is computed)"""
+    try:
+        with np.errstate(all="ignore"):
+            model = build_model(spec)
+            c1 = make_contour(spec, model)
+            o = oracle(spec, model, c1)
+            if o is not None:
+                return o
+            what = apply_history(spec, model, hist)
+            c2 = make_contour(spec, model)
+    except Exception as e:  # noqa
+        return ({"contour": spec["kind"], "clause": "unexpected-exception", "exc": type(e).__name__, "history": hist["op"]},
+                "%s raised %s: %s" % (spec["kind"], type(e).__name__, e))
+    o = oracle(spec, model, c2)
+    if o is not None:
+        sig = dict(o[0], history=hist["op"])
+        return (sig, "after a first contour and then [%s] on the same model object, the new contour: %s" % (what, o[1]))
+    return None
+
+
 def run_spec(spec, rec=None):
     """real contour + oracle; returns (model, contour or None, oracle result, stats)"""
     stats = {}
@@ -629,6 +680,8 @@ def replay(ctx, spec):
         o = nsphere_oracle(dim, n, s)
     elif "calculate_alpha" in spec:
         o = calculate_alpha_oracle(*spec["calculate_alpha"])
+    elif "history" in spec:
+        o = history_oracle(spec["spec"], spec["history"])
     else:
         _, _, o, _ = run_spec(spec)
         if o is None and len(spec.get("dims", [0, 0])) >= 2:
@@ -647,10 +700,12 @@ def calculate_alpha_oracle(sd, rp):
     return None
 
 
-def shrink(spec, clause):
+def shrink(spec, clause, runner=None):
     def fails(s):
         try:
-            if clause == "repeatable":
+            if runner is not None:
+                o = runner(s)
+            elif clause == "repeatable":
                 o = repeat_oracle(s)
             else:
                 _, _, o, _ = run_spec(s)
@@ -1065,8 +1120,33 @@ def run(ctx):
             if ctx.violation(o2[0], "%s contour (computed twice): %s" % (sp["kind"].upper(), o2[1]), small):
                 found += 1
     lap("computed_twice")
+    # histories on one model object: contour -> assign parameters / new dependence coefficients / fit -> contour again,
+    # every family once as the (unconditional) first variable, then random models
+    nhist = 0
+    hist_specs = []
+    for fam in FAM_NAMES:
+        for op in ("assign", "fit" if fam in FIT_FAMS else "assign", "dep"):
+            st = rng.choice([s2 for s2 in structures if len(s2) <= 3 and (op != "dep" or any(c is not None for c in s2))])
+            hist_specs.append((gen_spec(rng, structure=st, fam0=fam), {"op": op, "factor": round(rng.uniform(1.1, 1.6), 2), "seed": rng.randrange(1000)}))
+    for _ in range(ctx.n(10, 300)):
+        sp = gen_spec(rng)
+        ops = ["assign"] + (["fit"] if sp["dims"][0]["fam"] in FIT_FAMS else []) + (["dep"] if any(d["cond"] is not None for d in sp["dims"]) else [])
+        hist_specs.append((sp, {"op": rng.choice(ops), "factor": round(rng.uniform(1.1, 1.6), 2), "seed": rng.randrange(1000)}))
+    hist_ops = {}
+    for sp, hist in hist_specs:
+        sp["n_points"] = min(sp["n_points"], 12)
+        o = history_oracle(sp, hist)
+        nhist += 1
+        hist_ops[hist["op"]] = hist_ops.get(hist["op"], 0) + 1
+        if o is not None and found < 8:
+            small = shrink(sp, o[0].get("clause"), runner=lambda s2, h=hist: history_oracle(s2, h))
+            o2 = history_oracle(small, hist) or o
+            if ctx.violation(o2[0], "%s contour (history): %s" % (sp["kind"].upper(), o2[1]), {"history": hist, "spec": small}):
+                found += 1
+    lap("histories")
+    ctx.notes["histories"] = {"runs": nhist, "operations": hist_ops, "first_variable_families": FAM_NAMES}
     ctx.notes["timing_s"] = tm
-    ctx.cov["evaluations"] += nsweep + nbig + nrep + len(ca_in)
+    ctx.cov["evaluations"] += nsweep + nbig + nrep + nhist + len(ca_in)
     ctx.notes["extra_streams"] = {"n_dim>=3_many_points_oracle_only": nbig, "computed_twice": nrep, "calculate_alpha_pairs": len(ca_in)}
     ctx.notes["oracle_points"]["min_direction_separation_rad_nd>=3"] = min_sep
     ctx.notes["n_points_sweep"] = "every n_points in 3..%d on two 2-D models (oracle only)" % (ctx.n(401, 1201) - 1)
@@ -1074,7 +1154,7 @@ def run(ctx):
                        "(7 shipped + ScipyDistribution(gamma) + an algebraic duck-typed one), fixed/dependent parameter subsets, 9 dependence shapes "
                        "incl. chained, int- and float-typed parameters; all 32 structures x {IFORM, ISORM}; the 4 predefined hierarchical models fitted to shipped data sets "
                        "(alpha from calculate_alpha); alpha log-uniform in [1e-8, 0.5] + end points, a stream in (0.5, 1); n_points 3-40 and the default 180 in the "
-                       "correspondence, every n_points in 3..400 (2-D) and 41-200 (3-/4-D) through the oracle; contours computed twice; non-trivial = at least one "
+                       "correspondence, every n_points in 3..400 (2-D) and 41-200 (3-/4-D) through the oracle; contours computed twice; histories on one model object (contour, assign / dependence coefficients / fit, contour) with every family as first variable; non-trivial = at least one "
                        "conditional variable and a contour whose points are not all equal; distinct = hash of the specification")
     ctx.cov["trusted_base"] = ["Coq 8.16.1 kernel + vm_compute (primitive floats)", "harness tools/harness/c01.py (generators, recorders, comparison)",
                                "scipy norm/chi2/family cdf-ppf, numpy cos/sin/RandomState.normal, NSphere forces/potential as recorded oracles",
